@@ -169,6 +169,7 @@ func runSeq(run *ev.Run, caseID string, r *rand.Rand, cfg string, start string, 
 		return
 	}
 	defer w.Close()
+	w.StrictNoElectionID = true
 	probs, ack := bystanders(w, g, cfg)
 	subject, p := w.Connect()
 	probs = append(probs, p...)
